@@ -74,6 +74,10 @@ type Conn struct {
 
 // NodeSpec describes one node (leaf, batch or flow).
 type NodeSpec struct {
+	// Wrap (flow only): the flow is used through a user type that embeds
+	// *flyt.Flow and overrides Post, returning this action: what the parent
+	// routes on is what that Post returns.
+	Wrap string `json:"wrap,omitempty"`
 	ID   int    `json:"id"`
 	Kind string `json:"kind"` // base plain retry fb retryfb func batch flow zst (pointer to a zero-size type) ovr (embeds BaseNode, overrides the retry getters) val (a value-type node; the first one of a scenario is the zero value of its type)
 
